@@ -30,6 +30,26 @@ def rlist(s):
     return res
 
 
+def nest_tree(a):
+    """`nest` op -> {handle: [handles of its ancestors in the tree, the mutated entity first]} for every entity below
+    the mutated one (`c=` lists the tree in pre-order, one `.` per level)"""
+    top = a.get("h")
+    stack, res = [top], {}
+    for t in a.get("c", "").split("+"):
+        if not t: continue
+        depth = len(t) - len(t.lstrip("."))
+        h = t.lstrip(".").split(":")[0][1:]
+        stack = stack[:depth + 1]
+        res[h] = list(stack)
+        stack.append(h)
+    return res
+
+
+def nest_existing(a):
+    """handles of the EXISTING rows named by a `nest` op below the mutated entity"""
+    return {t.lstrip(".").split(":")[0][1:] for t in a.get("c", "").split("+") if t.lstrip(".")[:1] == "h"}
+
+
 class Entry:
     """one entry of a room definition as written by an accepted `mut` line"""
     __slots__ = ("lst", "key", "date", "payload", "author", "mut_index", "group")
